@@ -38,6 +38,7 @@ pub struct DsRace {
 pub struct RaceWorld {
     t: Tbl,
     watch: ManifestWatch,
+    poisoned: Mutex<bool>,
 }
 
 impl DsRace {
@@ -85,6 +86,7 @@ impl Scenario for DsRace {
         let w = RaceWorld {
             t,
             watch: ManifestWatch::default(),
+            poisoned: Mutex::new(false),
         };
         w.watch.observe(&w.t.env.store);
         (w, actors)
@@ -106,7 +108,11 @@ impl Scenario for DsRace {
         w.t.shape_hash()
     }
     async fn monitor(&self, w: &RaceWorld, p: &PointRec) -> Vec<Violation> {
-        w.watch
+        if *w.poisoned.lock().unwrap() {
+            return vec![];
+        }
+        let mut out: Vec<Violation> = w
+            .watch
             .observe(&w.t.env.store)
             .into_iter()
             .map(|b| {
@@ -117,9 +123,25 @@ impl Scenario for DsRace {
                     json!({}),
                 )
             })
-            .collect()
+            .collect();
+        if let Some(d) = ext_dangling(&w.t) {
+            out.push(Violation::new(
+                "ext-dangling",
+                &format!("C02/ds/{}/ext-dangling/{:?}", self.cfg.handler.tag(), p.call().verb),
+                format!("{d}, after {}", p.norm()),
+                json!({}),
+            ));
+        }
+        if !out.is_empty() {
+            *w.poisoned.lock().unwrap() = true;
+        }
+        out
     }
     async fn final_check(&self, w: &RaceWorld, exec: &Exec) -> Vec<Violation> {
+        if *w.poisoned.lock().unwrap() {
+            *self.stats.lock().unwrap().entry("(monitor violation; not judged further)".into()).or_insert(0) += 1;
+            return vec![];
+        }
         let ft = fault_tag(&exec.points, self.cfg.ops.len());
         let mut out: Vec<(String, String)> = vec![];
         let labels: Vec<String> = exec
@@ -303,16 +325,18 @@ fn items(ctx: &Ctx) -> Vec<Item> {
     ];
     for h in [HandlerKind::CondPut, HandlerKind::Rename, HandlerKind::External] {
         for (i, ops) in pairs.iter().enumerate() {
-            if q && (i == 2 || (h == HandlerKind::Rename && i == 1)) {
+            // quick: append+delete on every handler, delete+update (semantic conflict -> re-execution) on
+            // the default handler; the rest in the thorough tier
+            if q && (i == 2 || (h != HandlerKind::CondPut && i == 1)) {
                 continue;
             }
             v.push(Item {
                 name: format!("ds/{}/{}", h.tag(), ops.iter().map(|o| o.kind()).collect::<Vec<_>>().join("+")),
                 seam: None,
                 race: Some(RaceCfg { handler: h, ops: ops.clone(), answers: vec![] }),
-                bounds: b(2, 0),
+                bounds: b(if q && h == HandlerKind::External { 1 } else { 2 }, 0),
             });
-            if i == 0 {
+            if i == 0 && (!q || h != HandlerKind::Rename) {
                 v.push(Item {
                     name: format!("ds/{}/{}/1fault", h.tag(), ops.iter().map(|o| o.kind()).collect::<Vec<_>>().join("+")),
                     seam: None,
